@@ -282,3 +282,76 @@ func init() {
 		}
 	}
 }
+
+func init() {
+	dumpers["allbounds"] = func(c *Ctx) {
+		bp := c.newBoundProver()
+		proven, unproven := 0, 0
+		for _, fn := range c.ModuleSSAFuncs() {
+			if fn.Pkg == nil {
+				continue
+			}
+			switch shortPkg(fn.Pkg.Pkg) {
+			case "eval", "object", "extensions", "repl", "main":
+			default:
+				continue
+			}
+			eachInstr(fn, func(in ssa.Instruction) {
+				var operand ssa.Value
+				type bound struct {
+					v      ssa.Value
+					strict bool
+					what   string
+				}
+				var bounds []bound
+				switch x := in.(type) {
+				case *ssa.IndexAddr:
+					operand, bounds = x.X, []bound{{x.Index, true, "index"}}
+				case *ssa.Index:
+					operand, bounds = x.X, []bound{{x.Index, true, "index"}}
+				case *ssa.Lookup:
+					if _, isStr := x.X.Type().Underlying().(*types.Basic); isStr {
+						operand, bounds = x.X, []bound{{x.Index, true, "index"}}
+					}
+				case *ssa.Slice:
+					operand = x.X
+					if x.Low != nil {
+						bounds = append(bounds, bound{x.Low, false, "low"})
+					}
+					if x.High != nil {
+						bounds = append(bounds, bound{x.High, false, "high"})
+					}
+				}
+				if operand == nil {
+					return
+				}
+				t := operand.Type().Underlying()
+				if p, ok := t.(*types.Pointer); ok {
+					t = p.Elem().Underlying()
+				}
+				if _, isArr := t.(*types.Array); isArr {
+					return // R9
+				}
+				for _, bd := range bounds {
+					if _, isK := constInt(bd.v); isK {
+						// constant index into a slice: needs len > k
+						k, _ := constInt(bd.v)
+						if k == 0 && !bd.strict {
+							continue
+						}
+					}
+					// relative proof: v < len(operand) via the C07.R4 machinery
+					hi := c.proveHi(bd.v, in.Block(), bd.strict, 0)
+					lo := c.proveLo(bd.v, in.Block(), 0) || bp.nonNeg(bd.v, in.Block(), 0, map[ssa.Value]bool{})
+					if hi && lo {
+						proven++
+						continue
+					}
+					unproven++
+					fmt.Printf("%s %s %s hi=%v lo=%v %s [%s]\n", c.Pos(in.Pos()), ssaFuncName(fn), bd.what, hi, lo, bd.v.String(), in.String())
+				}
+			})
+		}
+		fmt.Println("proven", proven, "unproven", unproven)
+	}
+}
